@@ -73,7 +73,7 @@ def loops_at(case, problem, module, group, scale):
     sizes = dict(case.sizes)
     for x in group:
         sizes[x] = sizes[x] * scale
-    c2 = engine.Case(case.assignment, case.formats, sizes, case.inputs, case.capacity, case.origin, case.target, case.tree)
+    c2 = engine.Case(case.assignment, case.formats, sizes, case.inputs, case.capacity, case.origin, case.target, case.tree, case.direct_problem)
     res, _ = engine.run_function(c2, problem, module.definitions[-1])
     return res.counters.loop_iters, res.counters.steps
 
